@@ -5,7 +5,8 @@ use crate::e2::*;
 use crate::sim::{self, E2Case};
 use elvis::applications::{Capture, SendMessage};
 use elvis_core::protocols::ipv4::{Ipv4, Ipv4Address, Recipient};
-use elvis_core::protocols::{Arp, Endpoint, Pci, SocketAPI, Tcp, Udp};
+use elvis_core::protocols::dhcp::dhcp_client::DhcpClient;
+use elvis_core::protocols::{Arp, DnsClient, Endpoint, Pci, SocketAPI, Tcp, Udp};
 use elvis_core::{ExitStatus, IpTable, Machine, Message, Network};
 use std::sync::{Arc, Mutex};
 use std::time::Duration;
@@ -68,11 +69,18 @@ impl E2Run for Start {
                 let ip = [10, 0, 0, m as u8 + 1];
                 let table: IpTable<Recipient> = [("0.0.0.0/0", Recipient::new(0, None))].into_iter().collect();
                 let mut machine = Machine::new().with(Pci::new([net.clone()])).with(Ipv4::new(table)).with(Udp::new());
-                let flavour = if with_capture && m < 2 { 3 * sim::choose(2) } else { sim::choose(4) };
+                let flavour = if with_capture && m < 2 { 3 * sim::choose(2) } else { sim::choose(7) };
                 match flavour {
                     0 => machine = machine.with(Tcp::new()),
                     1 => machine = machine.with(Arp::new()),
                     2 => machine = machine.with(Tcp::new()).with(SocketAPI::new(Some(Ipv4Address::new(ip)))),
+                    // built-in protocols that talk as soon as the simulation has started
+                    4 => machine = machine.with(DhcpClient::new(Ipv4Address::new([10, 0, 0, 200]))),
+                    5 => machine = machine.with(DnsClient::new()).with(SocketAPI::new(Some(Ipv4Address::new(ip)))),
+                    6 => machine = machine.with(elvis::applications::DhcpServer::new(
+                        Ipv4Address::new(ip),
+                        elvis::ip_generator::IpRange::new(Ipv4Address::new([10, 0, 9, 1]), Ipv4Address::new([10, 0, 9, 50])),
+                    )),
                     _ => {}
                 }
                 if with_capture && m == 0 {
@@ -86,7 +94,11 @@ impl E2Run for Start {
                 }
                 // harness applications: slow initialisation, shutdown requests, probes that send a frame at once
                 let mut mk = |n_app: usize| -> (u64, Option<(u64, u32)>, bool, bool) {
-                    let slow = if sim::chance(1, 3) { sim::choose(400) } else { 0 };
+                    let slow = match sim::choose(6) {
+                        0 | 1 => sim::choose(400),
+                        2 => 1000 + sim::choose(2000),
+                        _ => 0,
+                    };
                     let request = if with_capture {
                         None
                     } else if storm {
@@ -202,8 +214,8 @@ impl E2Run for Start {
             out.count("probe_competing_shutdown_requests");
         }
         let expected: Vec<ExitStatus> = if plan.capture_expected {
-            // initialisation may take up to 400 ms of simulated time
-            if timeout.map(|t| t < 1000).unwrap_or(false) {
+            // initialisation may take up to 3 s of simulated time
+            if timeout.map(|t| t <= 3100).unwrap_or(false) {
                 vec![ExitStatus::Exited, ExitStatus::TimedOut]
             } else {
                 vec![ExitStatus::Exited]
